@@ -180,6 +180,7 @@ type world struct {
 	pMid           int
 	connFails      int
 	eintrBurst     int
+	reconnectHot   bool
 	replaceStuck   map[string]bool
 
 	// locality: real churn concentrates on one interface / destination for a
@@ -473,7 +474,11 @@ func (w *world) call(what string) {
 
 func (w *world) newHandle() (netlinkshim.Interface, error) {
 	w.call("NewNetlink")
-	if w.connFails < 2 && w.fault("new_netlink") {
+	// the reconnect that follows a failed per-interface listing happens in the
+	// middle of that rescan: in-flight state, so it has its own failure rate
+	hot := w.reconnectHot
+	w.reconnectHot = false
+	if w.connFails < 2 && ((hot && w.fault("reconnect_after_failed_listing")) || w.fault("new_netlink")) {
 		w.connFails++
 		w.dp.FailuresToSimulate |= mocknetlink.FailNextNewNetlink
 	}
@@ -653,6 +658,7 @@ func (n *nlWrap) RouteListFilteredIter(family int, filter *netlink.Route, mask u
 	}
 	if err != nil && !full {
 		w.r.Probe("iface_listing_failed")
+		w.reconnectHot = true
 	}
 	return err
 }
@@ -1420,7 +1426,7 @@ var faultKinds = []string{
 	"link_list", "link_list_eintr", "link_by_name", "link_by_name_lie_notfound",
 	"route_list", "iface_route_list", "route_list_eintr", "route_list_wrapped_eintr",
 	"route_replace", "route_replace_after_own_delete", "route_del", "neigh_set",
-	"new_netlink", "set_socket_timeout", "set_strict",
+	"new_netlink", "reconnect_after_failed_listing", "set_socket_timeout", "set_strict",
 }
 
 func run(r *core.R) {
@@ -1500,10 +1506,16 @@ func run(r *core.R) {
 			if k == "iface_route_list" {
 				pOn = 800
 			}
+			if k == "reconnect_after_failed_listing" {
+				pOn = 650
+			}
 			if r.Src.Chance(pOn, "cfg_fault_on_"+k) {
 				w.rate[k] = r.Src.Range(20, 250, "cfg_fault_rate_"+k)
 				if k == "route_replace_after_own_delete" {
 					w.rate[k] = r.Src.Range(200, 700, "cfg_fault_rate_inflight")
+				}
+				if k == "reconnect_after_failed_listing" {
+					w.rate[k] = r.Src.Range(300, 800, "cfg_fault_rate_reconnect")
 				}
 				if k == "iface_route_list" {
 					// the OIF-filtered dump that follows a link flap is the call with in-flight state
